@@ -53,6 +53,7 @@ def handle (st : DState) (line : String) : DState × String :=
   | ["producer", proto, rm, seed, n, events] => (st, producerLine proto rm seed n events)
   | ["options", env, file, args] => (st, optionsLine env file args)
   | ["mirror", proto, src, dst, port, max, payload] => (st, mirrorLine proto src dst port max payload)
+  | ["mirrorseq", proto, dst, port, max, mtu, mode, items] => (st, mirrorSeqLine proto dst port max mtu mode items)
   | _ => (st, "bad-op")
 
 partial def loop (h : IO.FS.Stream) (out : IO.FS.Stream) (st : DState) : IO Unit := do
